@@ -2,6 +2,7 @@ package main
 
 import (
 	"fmt"
+	neatmath "github.com/yaricom/goNEAT/v4/neat/math"
 	"math"
 	"math/rand"
 
@@ -256,6 +257,25 @@ func runC07(c *Ctx, idx int) {
 				if shared > 0 {
 					c.Count("pairs.sharing_gene_objects", 1)
 				}
+			}
+			if r.Intn(10) == 0 {
+				// modular genomes: a module (control gene) is numbered like a gene but is no connection gene - the distance is defined
+				// over the connection genes alone, wherever the module's innovation number lies
+				for _, g := range []*genetics.Genome{ga, gb} {
+					if len(g.Genes) == 0 || r.Intn(3) == 0 {
+						continue
+					}
+					last := g.Genes[len(g.Genes)-1].InnovationNum
+					if last > math.MaxInt64-64 {
+						continue
+					}
+					ctrl := network.NewNNode(1000, network.HiddenNeuron)
+					ctrl.ActivationType = neatmath.MultiplyModuleActivation
+					ctrl.ConnectFrom(g.Nodes[0], 1.0)
+					g.Nodes[1].ConnectFrom(ctrl, 1.0)
+					g.ControlGenes = []*genetics.MIMOControlGene{genetics.NewMIMOGene(ctrl, last+int64(1+r.Intn(40)), r.NormFloat64(), r.Intn(4) != 0)}
+				}
+				c.Count("pairs.with_modules", 1)
 			}
 			c.Count("pairs.synthetic", 1)
 			c.Count("pattern."+pattern, 1)
